@@ -5,7 +5,7 @@ from framework import coq_bs, coq_z, coq_N, coq_bool, coq_list
 
 ID = 'C16'
 COQ_IMPORTS = ['C16_Model']
-NO_SHRINK_KEYS = ('via', 'tform', 'c', 'kind')
+NO_SHRINK_KEYS = ('via', 'tform', 'c', 'kind', 'xsteps')
 GENERATORS = ['gen_c16_reserved', 'gen_c16_ops']
 RULE = ('random FeatureLists / BioBaskets of 0-8 elements drawn from small pools (so that equal elements, equal keys and ties are '
         'frequent; features may lack type/seqid/name/id), every documented filter operator and alias with values of matching and '
@@ -28,6 +28,14 @@ RULE = ('random FeatureLists / BioBaskets of 0-8 elements drawn from small pools
         'and as the only difference between elements; 220/3000 sorts with key tuples mixing metadata keys, len, None and callables '
         '(-len, constant, lower-cased value, value with default), both directions; BioSeq.add_fts as a transport of the default '
         'sort; .d as a transport of todict; a 91-case corpus of the round-6 witnesses; '
+        'round 7: 32/400 fixed + 40/600 per-seed HISTORIES ACROSS COLLECTION KINDS in one process (run_C16_xhist): the same 2-4 key names '
+        '(rf, seqid, n, name, type, id, k, pos, lenseq, endpos) applied in turn to BioMatchList (groupby, d), FeatureList and BioBasket '
+        '(groupby, sort, filter) objects as "a b" strings, tuples and callables, in four fixed orders of the kinds (matches first / last / '
+        'middle / round robin; half of the fixed set runs first thing in the process, half last) and per seed shuffled; every object '
+        'carries DIFFERENT values at every place a key can live (metadata, instance attributes, attributes of the wrapped re.Match, a '
+        '.meta attribute on a BioMatch), so a getter looking in the wrong place or kept from another collection answers wrongly at once; '
+        'interleaved find_orfs / matchall steps (they group their own collections internally) whose results are grouped / sorted / '
+        'filtered / attached to a basket and compared with the partition by the values read directly off the returned objects; '
         'non-trivial = distinct case whose result is neither empty nor the unchanged input')
 TRUSTED = ['CPython sorted() is a stable sort (modelled by the proven-stable insertion sort of lib/C16_StableSort.v and compared on '
            'tie-heavy inputs), dict insertion order, list.__contains__, str.lower/str.split/str.rsplit, operator module',
@@ -44,7 +52,7 @@ ASSUMPTIONS = ['Python str restricted to Latin-1 code points; metadata values re
                'key values of one sort key are all int or all str (Python cannot order None or mixed kinds: TypeError, outside the domain)']
 
 MODELLED_FUNCS = {
-    'sugar/core/cane.py': ['_keyfuncs', '_groupby', '_sorted', '_filter'],
+    'sugar/core/cane.py': ['_keyfuncs', '_groupby', '_sorted', '_filter', 'BioMatchList.groupby', 'BioMatchList.d', 'BioMatch.__getattr__'],
     'sugar/core/fts.py': ['LocationTuple.range', 'LocationTuple.__lt__', 'Feature.type', 'Feature.id', 'Feature.seqid',
                           'Feature.__eq__', 'Feature.__lt__', 'Feature.__len__', 'Location.__eq__',
                           'FeatureList.__and__', 'FeatureList.__rand__', 'FeatureList.__iand__', 'FeatureList.__or__',
@@ -523,8 +531,175 @@ def g_hattach(rng):
     return {'_op': 'hattach', 'seqs': seqs, 'steps': steps}
 
 
+# ----------------------------------------------------------------------------- histories ACROSS collection kinds (round 7)
+# The same key names applied in turn to BioMatchList, FeatureList and BioBasket objects in one process; every object carries BOTH
+# places a key can live in (metadata AND instance attributes, BioMatch also the attributes of the wrapped re.Match) with DIFFERENT
+# values, so a getter that looks in the wrong place (or was built for another collection and kept) gives a wrong answer at once.
+
+XNAMES = {'rf': [-3, -2, -1, 0, 1, 2], 'seqid': ['s1', 's2', 'S1'], 'n': [0, 1, 2], 'name': ['a', 'b', 'A', 'ab'], 'type': ['CDS', 'cds', 'gene', 'ORF'],
+          'id': ['x', 'y', 'z'], 'k': [5, 6, 7], 'pos': [0, 1, 2, 3], 'lenseq': [3, 30, 33], 'endpos': [4, 5, 6]}
+XINST = ['rf', 'n', 'k', 'pos', 'lenseq', 'endpos']          # names free for an instance attribute on Feature / BioSeq
+
+
+def _other(rng, name, v):
+    pool = [x for x in XNAMES[name] if x != v] or XNAMES[name]
+    return rng.choice(pool)
+
+
+def g_xobj(rng, K, names, full, i):
+    """one object of kind K with values for `names` at every place it has (different value per place)"""
+    if K == 'ml':
+        inst = []
+        for a in ('rf', 'seqid', 'lenseq'):                  # BioMatch.__init__ always sets these three (possibly to None)
+            inst.append([a, rng.choice(XNAMES[a]) if (a in names and full) or rng.random() < 0.75 else None])
+        for a in names:
+            if a not in ('rf', 'seqid', 'lenseq', 'endpos') and (a != 'pos' or rng.random() < 0.4) and (full or rng.random() < 0.7):
+                inst.append([a, rng.choice(XNAMES[a])])     # an instance attribute set by the caller ('pos': hides the re.Match one)
+        L = rng.choice(XNAMES['endpos'])
+        p = rng.choice(XNAMES['pos'])
+        d = dict(map(tuple, inst))
+        meta = None
+        if rng.random() < 0.6:                               # a .meta attribute holding OTHER values (never looked at)
+            meta = [[a, _other(rng, a, d.get(a))] for a in names if rng.random() < 0.8]
+        return {'ml': True, 'f': False, 'd': '', 'locs': [], 'm': meta or [], 'hasmeta': meta is not None, '_i': i, 'inst': inst,
+                'wrap': [['pos', p], ['endpos', L], ['lastindex', None], ['lastgroup', None]]}
+    feat = K == 'fl'
+    m = [] if feat else [['id', rng.choice(XNAMES['id'])]]
+    for a in names:
+        if (a != 'id' or feat) and (full or rng.random() < 0.75):
+            m.append([a, rng.choice(XNAMES[a])])
+    if feat and 'seqid' not in names and rng.random() < 0.5:
+        m.append(['seqid', rng.choice(XNAMES['seqid'])])
+    rng.shuffle(m)
+    d = dict(map(tuple, m))
+    inst = [[a, _other(rng, a, d.get(a))] for a in names if a in XINST and rng.random() < 0.7]
+    if feat:
+        a0 = rng.randrange(0, 6)
+        e = _with_locs({'f': True, 'd': '', 'm': m}, [[a0, a0 + rng.randrange(1, 5)]], rng.random() < 0.2)
+    else:
+        e = {'f': False, 'd': ''.join(rng.choice('ACGT') for _ in range(rng.randrange(0, 5))), 'locs': [], 'm': m}
+    e.update(_i=i, inst=inst, wrap=[])
+    return e
+
+
+def g_xkeys(rng, K, names, sort):
+    """a key spec over the shared names: 'a b' string, one str, tuple with callables"""
+    strs = [a for a in names if not (K == 'bb' and False)]
+    r = rng.random()
+    if r < 0.1 and not sort:
+        return {'default': True}
+    if r < 0.4:
+        return {'s': rng.choice(strs)}
+    if r < 0.6:
+        return {'s': rng.choice([' ', '  ']).join(rng.sample(strs, min(len(strs), rng.choice([1, 2, 2, 3]))))}
+    ks = []
+    for a in rng.sample(strs, min(len(strs), rng.choice([1, 2, 2, 3]))):
+        q = rng.random()
+        if q < 0.7:
+            ks.append(a)
+        elif q < 0.85:
+            ks.append({'c': 'getor', 'k': a, 'v': rng.choice(XNAMES[a])})
+        elif isinstance(XNAMES[a][0], str):
+            ks.append({'c': 'lower', 'k': a})
+        else:
+            ks.append({'c': 'const'})
+    if K != 'ml' and rng.random() < 0.15:
+        ks.insert(rng.randrange(len(ks) + 1), {'c': 'len'})
+    if len(ks) == 1 and rng.random() < 0.4:
+        return {'one': ks[0]} if not isinstance(ks[0], str) else {'s': ks[0]}
+    return {'t': ks}
+
+
+def g_xcond(rng, names):
+    a = rng.choice(names + ['len'] if rng.random() < 0.15 else names)
+    if a == 'len':
+        return ['len_' + rng.choice(['ge', 'le', 'eq', 'min', 'max']), rng.randrange(0, 5)]
+    r = rng.random()
+    if r < 0.4:
+        return [a + '_' + rng.choice(['eq', 'ne']), rng.choice(XNAMES[a] + [None])]
+    if r < 0.7:
+        return [a + '_in', {'l': rng.sample(XNAMES[a] + [None], rng.randrange(0, 4)), 'tup': rng.random() < 0.5}]
+    return [a + '_' + rng.choice(['lt', 'le', 'ge', 'gt', 'min', 'max']), rng.choice(XNAMES[a])]
+
+
+XSEQS = ['ATGAAATAGCATGCCCTGAAACAT', 'CCATGATGTAACTATTTCATAGG', 'ATGTAA', 'TTACATATGCCCTAGATGA', 'AUGGCUUAAGCAUGGGUAG', 'ACGT', '',
+         'ATG-AAA-TAGCATG--CCCTGA']
+
+
+def g_xoracle(rng, names):
+    """a step through find_orfs / matchall (they call the helpers internally and on their own collections); the answer is checked
+    against the partition / stable order by the values read directly off the returned objects"""
+    seq = rng.choice(XSEQS)
+    rf = rng.choice(['both', 'both', 'fwd', 'bwd', 0, -1, [0, -1, 2]])
+    if rng.random() < 0.5:
+        key = rng.choice(['rf', 'rf', 'seqid', 'type'] + [a for a in names if a in ('rf', 'seqid', 'type', 'name')])
+        return {'s': 'orfs', 'seq': seq, 'rf': rf, 'need_start': rng.choice(['always', 'always', 'once', 'never']),
+                'op': rng.choice(['groupby', 'groupby', 'sort', 'filter', 'basket']), 'key': key, 'reverse': rng.random() < 0.3}
+    keys = rng.choice(['rf', None, 'seqid', 'rf seqid', 'lenseq', 'pos', 'd'] + [a for a in names if a not in ('type', 'name', 'id')])
+    return {'s': 'mall', 'seq': seq, 'rf': rf, 'sub': rng.choice(['start', 'stop', 'A', 'AT.', 'G|C']), 'keys': keys}
+
+
+def g_xhist(rng, mode):
+    names = rng.sample(sorted(XNAMES), rng.choice([2, 3, 3, 4]))
+    if 'rf' not in names and rng.random() < 0.5:
+        names[0] = 'rf'
+    by_kind = {'ml': [], 'fl': [], 'bb': []}
+    for K in by_kind:
+        knames = [a for a in names if not (K == 'bb' and a == 'id')] or ['n']
+        for _ in range(rng.choice([1, 2, 2, 3])):
+            op = 'groupby' if K == 'ml' else rng.choice(['groupby', 'groupby', 'sort', 'sort', 'filter'])
+            st = {'s': op, 'K': K}
+            if op == 'filter':
+                conds, seen = [], set()
+                for _ in range(rng.choice([1, 1, 2])):
+                    c = g_xcond(rng, knames)
+                    if c[0] not in seen:
+                        seen.add(c[0])
+                        conds.append(c)
+                st['conds'] = conds
+            else:
+                st['keys'] = g_xkeys(rng, K, knames, op == 'sort')
+                if op == 'sort':
+                    st['reverse'] = rng.random() < 0.4
+                elif K == 'ml' and rng.random() < 0.1:
+                    st['via'] = 'd'                       # BioMatchList.d: documented alias of groupby('seqid')
+                    st['keys'] = {'s': 'seqid'}
+            # ordering comparisons and .lower() need a value of the right kind on every object (None: TypeError / AttributeError)
+            needy = (op == 'sort' or any(c[0].rsplit('_', 1)[1] in ('lt', 'le', 'ge', 'gt', 'min', 'max') for c in st.get('conds', []))
+                     or any(isinstance(k, dict) and k['c'] == 'lower' for k in st.get('keys', {}).get('t', [st.get('keys', {}).get('one')])))
+            full = needy or rng.random() < 0.4
+            pool = [g_xobj(rng, K, knames, full, 0) for _ in range(rng.choice([2, 3, 4]))]
+            xs = [dict(rng.choice(pool)) for _ in range(rng.choice([0, 1, 2, 3, 4, 5, 6]) if rng.random() < 0.15 else rng.choice([3, 4, 5, 6]))]
+            for i, x in enumerate(xs):
+                x['_i'] = i
+            st['xs'] = xs
+            by_kind[K].append(st)
+    if mode == 0:
+        steps = by_kind['ml'] + by_kind['fl'] + by_kind['bb']
+    elif mode == 1:
+        steps = by_kind['fl'] + by_kind['bb'] + by_kind['ml']
+    elif mode == 2:
+        steps = by_kind['bb'] + by_kind['ml'] + by_kind['fl']
+    elif mode == 3:                                     # round robin
+        steps = [st for tri in itertools.zip_longest(by_kind['fl'], by_kind['ml'], by_kind['bb']) for st in tri if st]
+    else:
+        steps = by_kind['ml'] + by_kind['fl'] + by_kind['bb']
+        rng.shuffle(steps)
+    for _ in range(rng.choice([0, 1, 1, 2])):
+        steps.insert(rng.randrange(len(steps) + 1), g_xoracle(rng, names))
+    return {'_op': 'xhist', 'xsteps': steps}
+
+
 def gen_cases(rng, tier):
-    cases = box_cases(6 if tier == 'thorough' else 3) + latin1_cases() + op_box_cases()
+    # histories across collection kinds: a FIXED set (the same for every seed; four orders of the kinds), half of it first thing in the
+    # process and half after everything else, and a per-seed set in shuffled order (drawn without touching the stream of `rng`)
+    _R = __import__('random').Random
+    frng = _R(16)
+    nfix, nseed = (100, 600) if tier == 'thorough' else (8, 40)
+    xfix = [g_xhist(frng, mode) for _ in range(nfix) for mode in (0, 1, 2, 3)]
+    xsrng = _R(repr(rng.getstate()[1][:8]))
+    xseed = [g_xhist(xsrng, 4) for _ in range(nseed)]
+    cases = xfix[:len(xfix) // 2] + box_cases(6 if tier == 'thorough' else 3) + latin1_cases() + op_box_cases()
     hrng = __import__('random').Random(rng.random())        # own stream: the single-call cases keep their sequence
     for _ in range(3000 if tier == 'thorough' else 320):
         cases.append(g_hist(hrng))
@@ -680,7 +855,7 @@ def gen_cases(rng, tier):
                     old.append(f)
                 seqs.append([sid, old])
             cases.append({'_op': 'attach', 'add': rng.random() < 0.5, 'seqs': seqs, 'fs': fs, 'plain': rng.random() < 0.5})
-    return cases
+    return cases + xfix[len(xfix) // 2:] + xseed
 
 
 # ----------------------------------------------------------------------------- implementation driver
@@ -1029,9 +1204,184 @@ def _impl_hattach(case):
     return out
 
 
+def _xbuild(e):
+    """an object of a cross-kind history with every place filled in"""
+    if e.get('ml'):
+        import re
+        from sugar.core.cane import BioMatch
+        from sugar.core.meta import Meta
+        w = dict(map(tuple, e['wrap']))
+        mt = re.compile('A').search('A' * w['endpos'], w['pos'])
+        d = dict(map(tuple, e['inst']))
+        o = BioMatch(mt, rf=d['rf'], lenseq=d['lenseq'], seqid=d['seqid'])
+        for k, v in e['inst']:
+            if k not in ('rf', 'lenseq', 'seqid'):
+                setattr(o, k, v)
+        if e.get('hasmeta'):
+            o.meta = Meta({k: v for k, v in e['m']})
+        return o
+    o = _build(e)
+    for k, v in e['inst']:
+        setattr(o, k, v)
+    return o
+
+
+def _xpykey(k, ml):
+    if not ml or not isinstance(k, dict):
+        return _pykey(k)
+    c = k['c']
+    if c == 'const':
+        return lambda o: 0
+    if c == 'lower':
+        return lambda o, key=k['k']: getattr(o, key).lower()
+    if c == 'getor':
+        return lambda o, key=k['k'], v=k['v']: getattr(o, key, v)
+    raise ValueError(c)
+
+
+def _xpykeys(ks, ml):
+    if 'default' in ks:
+        return ()
+    if 's' in ks:
+        return (ks['s'],)
+    if 'one' in ks:
+        return (_xpykey(ks['one'], ml),)
+    return (tuple(_xpykey(k, ml) for k in ks['t']),)
+
+
+def _partition(vals):
+    """first-occurrence-ordered partition of positions by value (== on values of one kind; None apart)"""
+    keys, groups = [], []
+    for i, v in enumerate(vals):
+        t = _tag(v)
+        if t not in keys:
+            keys.append(t)
+            groups.append([])
+        groups[keys.index(t)].append(i)
+    return [[k[1], g] for k, g in zip(keys, groups)]
+
+
+def _xoracle_step(st):
+    """find_orfs / matchall: the library groups its own collections internally; then group / sort / filter what it returned and
+    compare with the partition / stable order by the values read directly off the objects.  -> None or a message"""
+    import warnings
+    from sugar import BioSeq, BioBasket, FeatureList
+    rf = st['rf']
+    rf = tuple(rf) if isinstance(rf, list) else rf
+    seq = BioSeq(st['seq'], id='q1')
+    with warnings.catch_warnings():
+        warnings.simplefilter('ignore')
+        if st['s'] == 'mall':
+            ml = seq.matchall(st['sub'], rf=rf)
+            objs = list(ml)
+            keys = st['keys']
+            names = ['seqid'] if keys == 'd' else ['rf'] if keys is None else keys.split()
+            got = ml.d if keys == 'd' else ml.groupby() if keys is None else ml.groupby(keys)
+            pos = {id(o): i for i, o in enumerate(objs)}
+
+            def chk(node, idxs, d):
+                if d == len(names):
+                    if type(node) is not type(ml) or [pos.get(id(o)) for o in node] != idxs:
+                        return 'group holds %r, expected the matches %r' % ([pos.get(id(o)) for o in node], idxs)
+                    return None
+                exp = _partition([getattr(objs[i], names[d], None) for i in idxs])
+                if not isinstance(node, dict) or [_tag(k) for k in node] != [_tag(k) for k, _ in exp]:
+                    return 'group keys %r at depth %d, expected %r' % (list(node) if isinstance(node, dict) else node, d, [k for k, _ in exp])
+                for (k, g), sub in zip(exp, node.values()):
+                    r = chk(sub, [idxs[j] for j in g], d + 1)
+                    if r:
+                        return r
+                return None
+            if not objs:
+                return None if got == {} else 'groupby of no matches gave %r' % (got,)
+            r = chk(got, list(range(len(objs))), 0)
+            return r and 'matchall(%r, rf=%r).groupby(%r) on %r: %s' % (st['sub'], rf, keys, st['seq'], r)
+        orfs = seq.find_orfs(rf=rf, need_start=st['need_start'])
+        objs = list(orfs)
+        pos = {id(o): i for i, o in enumerate(objs)}
+        key = st['key']
+        vals = [o.meta.get(key) for o in objs]
+        what = 'find_orfs(rf=%r, need_start=%r) on %r, then %s by %r' % (rf, st['need_start'], st['seq'], st['op'], key)
+        if st['op'] == 'groupby':
+            got = orfs.groupby(key)
+            exp = _partition(vals)
+            if [[_tag(k), [pos.get(id(o)) for o in v]] for k, v in got.items()] != [[_tag(k), g] for k, g in exp]:
+                return '%s: groups %r, expected %r' % (what, [[k, [pos.get(id(o)) for o in v]] for k, v in got.items()], exp)
+        elif st['op'] == 'sort':
+            if any(v is None for v in vals):
+                return None
+            c = FeatureList(objs)
+            c.sort(key, reverse=st['reverse'])
+            exp = sorted(range(len(objs)), key=lambda i: vals[i], reverse=st['reverse'])
+            if [pos.get(id(o)) for o in c] != exp:
+                return '%s (reverse=%r): order %r, expected %r' % (what, st['reverse'], [pos.get(id(o)) for o in c], exp)
+        elif st['op'] == 'filter':
+            if not objs:
+                return None
+            v0 = vals[len(vals) // 2]
+            got = orfs.filter(**{key + '_eq': v0})
+            exp = [i for i, v in enumerate(vals) if _tag(v) == _tag(v0)]
+            if [pos.get(id(o)) for o in got] != exp:
+                return '%s == %r: %r, expected %r' % (what, v0, [pos.get(id(o)) for o in got], exp)
+        else:                                            # a basket holding the sequence with the ORFs attached, grouped by id
+            bk = BioBasket([seq, BioSeq('ACGT', id='q2'), BioSeq('AC', id='q1')])
+            bk.fts = orfs
+            got = bk.groupby('id')
+            if [[k, [id(o) for o in v]] for k, v in got.items()] != [['q1', [id(bk[0]), id(bk[2])]], ['q2', [id(bk[1])]]]:
+                return 'basket.groupby("id") after find_orfs gave %r' % ({k: len(v) for k, v in got.items()},)
+            if [pos.get(id(o)) for o in bk[0].fts] != list(range(len(objs))) and st['key'] == 'rf':
+                return 'basket.fts = find_orfs(...) attached %r' % ([pos.get(id(o)) for o in bk[0].fts],)
+    return None
+
+
+def _impl_xhist(case):
+    """every step on fresh objects, all steps in this one process, in the order given"""
+    from sugar import BioBasket, FeatureList
+    from sugar.core.cane import BioMatchList
+    from framework import canon_exc
+    out, orc = [], []
+    for st in case['xsteps']:
+        if st['s'] in ('orfs', 'mall'):
+            try:
+                orc.append(_xoracle_step(st))
+            except Exception as e:
+                orc.append('%s step raised %s' % (st['s'], type(e).__name__))
+            continue
+        try:
+            K = st['K']
+            cls = {'fl': FeatureList, 'bb': BioBasket, 'ml': BioMatchList}[K]
+            objs = [_xbuild(e) for e in st['xs']]
+            ident = {id(o): e['_i'] for o, e in zip(objs, st['xs'])}
+            ix = lambda l: [ident.get(id(o), -1) for o in l]
+            c = cls(objs)
+            if st['s'] == 'groupby':
+                d = c.d if st.get('via') == 'd' else c.groupby(*_xpykeys(st['keys'], K == 'ml'))
+
+                def render(t):
+                    if isinstance(t, dict):
+                        return [[_kjson(k), render(v)] for k, v in t.items()]
+                    assert type(t) is cls
+                    return ix(t.data)
+                assert ix(c.data) == ix(objs)
+                out.append(render(d))
+            elif st['s'] == 'sort':
+                r = c.sort(*_xpykeys(st['keys'], False), reverse=st['reverse'])
+                assert r is c
+                out.append(ix(c.data))
+            else:
+                r = c.filter(**{k: _val(v) for k, v in st['conds']})
+                assert type(r) is cls and r is not c
+                out.append([ix(r.data), ix(c.data)])
+        except Exception as e:
+            out.append(canon_exc(e))
+    return {'m': out, 'o': orc}
+
+
 def impl(case):
     from sugar import BioBasket, FeatureList
     op = case['_op']
+    if op == 'xhist':
+        return _impl_xhist(case)
     if op == 'hist':
         return _impl_hist(case)
     if op == 'hattach':
@@ -1261,8 +1611,29 @@ def t_step(st, recv):
     raise ValueError(k)
 
 
+def t_xobj(e):
+    return '(mkX %s %s %s)' % (t_elem(dict(e, f=e['f'])) if not e.get('ml') else '(Sq %d %s %s)' % (e['_i'], coq_bs(''), t_meta(e['m'])),
+                               t_meta(e['inst']), t_meta(e['wrap']))
+
+
+def t_xstep(st):
+    K = {'fl': 'CFl', 'bb': 'CBb', 'ml': 'CMl'}[st['K']]
+    xs = coq_list([t_xobj(e) for e in st['xs']])
+    if st['s'] == 'filter':
+        return '(XsFilter %s %s %s)' % (K, xs, coq_list(['(%s, %s)' % (coq_bs(a), t_fval(v)) for a, v in st['conds']]))
+    if st['K'] == 'ml' and 'default' in st['keys']:
+        ks = '(KsStr %s)' % coq_bs('rf')                       # BioMatchList.groupby(keys='rf'), cane.py:148
+    else:
+        ks = t_keys(st['keys'], st['K'], st['s'])
+    if st['s'] == 'sort':
+        return '(XsSort %s %s %s %s)' % (K, xs, ks, coq_bool(st['reverse']))
+    return '(XsGroup %s %s %s)' % (K, xs, ks)
+
+
 def _model_term(case):
     op = case['_op']
+    if op == 'xhist':
+        return 'out (run_C16_xhist %s)' % coq_list([t_xstep(st) for st in case['xsteps'] if st['s'] not in ('orfs', 'mall')])
     if op == 'hist':
         return 'out (run_C16_hist %s %s)' % (t_elems(case['xs']), coq_list([t_step(st, case['_recv']) for st in case['steps']]))
     if op == 'hattach':
@@ -1302,6 +1673,8 @@ def split_model(case, m):
 
 
 def agree(case, implval, modelval):
+    if case.get('_op') == 'xhist':
+        return isinstance(implval, dict) and implval.get('m') == modelval
     if case.get('via') == 'index' and isinstance(implval, list):
         return modelval in implval
     if isinstance(implval, dict) and 'e' in implval and isinstance(modelval, dict) and 'e' in modelval:
@@ -1378,12 +1751,38 @@ def _keyfn(k, xs):
     return lambda e: _meta(e).get(k)
 
 
+def _xsubcase(st):
+    """one step of a cross-kind history as a single-call case on what the helper has to look at: the metadata of a Feature /
+    BioSeq; of a BioMatch its instance attributes, then those of the wrapped re.Match"""
+    ml = st['K'] == 'ml'
+    xs = [dict(e, f=False, d='', locs=[], m=[list(kv) for kv in e['inst']] + [kv for kv in e['wrap'] if kv[0] not in dict(map(tuple, e['inst']))])
+          if ml else e for e in st['xs']]
+    sub = {'_op': st['s'], '_recv': 'bb' if ml else st['K'], 'xs': xs, 'inplace': False}
+    if st['s'] == 'filter':
+        sub['conds'] = st['conds']
+    else:
+        sub['keys'] = {'s': 'rf'} if ml and 'default' in st['keys'] else st['keys']
+        sub['reverse'] = st.get('reverse', False)
+    return sub
+
+
 def spec(case, got):
     if isinstance(got, dict) and 'e' in got:
         return 'raised %s inside the domain' % got['e']
     if isinstance(got, dict) and 'independence' in got:
         return 'state independence: ' + got['independence']
     op = case['_op']
+    if op == 'xhist':
+        msteps = [st for st in case['xsteps'] if st['s'] not in ('orfs', 'mall')]
+        for n, (st, v) in enumerate(zip(msteps, got['m'])):
+            r = spec(_xsubcase(st), v)
+            if r:
+                return 'step %d (%s on a %s, in one process after the steps before it): %s' % (
+                    case['xsteps'].index(st), st['s'], {'fl': 'FeatureList', 'bb': 'BioBasket', 'ml': 'BioMatchList'}[st['K']], r)
+        for r in got['o']:
+            if r:
+                return r
+        return None
     if op in ('hist', 'hattach'):
         for n, v in enumerate(got):
             if isinstance(v, dict) and 'independence' in v:
@@ -1525,6 +1924,8 @@ def nontrivial(case, got):
     if isinstance(got, dict):
         return None
     op = case['_op']
+    if op == 'xhist':
+        return 'xhist' if sum(1 for v in got['m'] if isinstance(v, list) and len(v) > 1) >= 2 else None
     if op in ('hist', 'hattach'):
         return op if len(got) >= 2 and all(isinstance(v, list) for v in got) else None
     if op == 'filter':
@@ -1546,6 +1947,13 @@ def nontrivial(case, got):
 
 def histkey(case, got):
     op = case['_op']
+    if op == 'xhist':
+        hk = ['op=xhist', 'steps=%d' % len(case['xsteps'])]
+        hk += ['xstep=%s/%s' % (st['s'], st.get('K') or st.get('op') or 'groupby') for st in case['xsteps']]
+        hk.append('xorder=' + ''.join(dict.fromkeys(st.get('K', 'o')[0] for st in case['xsteps'])))
+        if isinstance(got, dict) and any(isinstance(v, dict) for v in got.get('m', [])):
+            hk.append('raises=in-step')
+        return hk
     if op in ('hist', 'hattach'):
         hk = ['op=' + op, 'steps=%d' % len(case['steps'])]
         if op == 'hist':
@@ -1576,7 +1984,70 @@ def features(case, implval):
     return {'_op': case['_op'], 'raises': implval.get('e') if isinstance(implval, dict) else None}
 
 
+def _xsnippet(case):
+    s = ('import re, warnings; warnings.simplefilter("ignore")\n'
+         'from sugar import BioSeq, BioBasket, Feature, FeatureList; from sugar.core.fts import Location\n'
+         'from sugar.core.cane import BioMatch, BioMatchList; from sugar.core.meta import Meta\n'
+         'def obj(o, inst, meta=None):\n    for k, v in inst: setattr(o, k, v)\n    if meta is not None: o.meta = Meta(meta)\n    return o\n'
+         '# ONE process, the steps in this order; every answer must be the partition / stable order / selection by the values at the\n'
+         '# place the collection looks its keys up (meta for FeatureList / BioBasket, attributes for BioMatchList)\n')
+
+    def pe(e):
+        if e.get('ml'):
+            w, d = dict(map(tuple, e['wrap'])), dict(map(tuple, e['inst']))
+            return 'obj(BioMatch(re.compile("A").search("A" * %d, %d), rf=%r, lenseq=%r, seqid=%r), %r, %r)' % (
+                w['endpos'], w['pos'], d['rf'], d['lenseq'], d['seqid'], [kv for kv in e['inst'] if kv[0] not in ('rf', 'lenseq', 'seqid')],
+                dict(map(tuple, e['m'])) if e.get('hasmeta') else None)
+        if e['f']:
+            b = 'Feature(locs=[%s], meta=%r)' % (', '.join('Location(%d, %d%s)' % (a, t, ", '-'" if e.get('minus') else '') for a, t in e['locs']), _meta(e))
+        else:
+            b = 'BioSeq(%r, meta=%r)' % (e['d'], _meta(e))
+        return 'obj(%s, %r)' % (b, e['inst'])
+
+    def pk(ks, ml):
+        if 'default' in ks:
+            return ''
+        if 's' in ks:
+            return repr(ks['s'])
+
+        def f(k):
+            if not isinstance(k, dict):
+                return repr(k)
+            if ml:
+                return {'const': '(lambda o: 0)', 'lower': '(lambda o: getattr(o, %r).lower())' % k.get('k'),
+                        'getor': '(lambda o: getattr(o, %r, %r))' % (k.get('k'), k.get('v'))}[k['c']]
+            return {'len': 'len', 'const': '(lambda o: 0)', 'lower': '(lambda o: o.meta.get(%r).lower())' % k.get('k'),
+                    'getor': '(lambda o: o.meta.get(%r, %r))' % (k.get('k'), k.get('v'))}[k['c']]
+        if 'one' in ks:
+            return f(ks['one'])
+        return '(' + ''.join(f(k) + ', ' for k in ks['t']) + ')'
+    for st in case['xsteps']:
+        if st['s'] == 'mall':
+            rf = tuple(st['rf']) if isinstance(st['rf'], list) else st['rf']
+            call = '.d' if st['keys'] == 'd' else '.groupby()' if st['keys'] is None else '.groupby(%r)' % st['keys']
+            s += 'print(BioSeq(%r, id="q1").matchall(%r, rf=%r)%s)\n' % (st['seq'], st['sub'], rf, call)
+        elif st['s'] == 'orfs':
+            rf = tuple(st['rf']) if isinstance(st['rf'], list) else st['rf']
+            s += 'orfs = BioSeq(%r, id="q1").find_orfs(rf=%r, need_start=%r); print([ft.meta.get(%r) for ft in orfs])\n' % (st['seq'], rf, st['need_start'], st['key'])
+            s += {'groupby': 'print(orfs.groupby(%r))\n' % st['key'], 'sort': 'print(orfs.sort(%r, reverse=%r))\n' % (st['key'], st['reverse']),
+                  'filter': 'print(orfs.filter(%s_eq=orfs[len(orfs) // 2].meta.get(%r)) if orfs else None)\n' % (st['key'], st['key']),
+                  'basket': 'b = BioBasket([BioSeq("A", id="q1"), BioSeq("ACGT", id="q2"), BioSeq("AC", id="q1")]); b.fts = orfs; print(b.groupby("id"))\n'}[st['op']]
+        else:
+            cls = {'fl': 'FeatureList', 'bb': 'BioBasket', 'ml': 'BioMatchList'}[st['K']]
+            s += 'x = %s([%s])\n' % (cls, ', '.join(pe(e) for e in st['xs']))
+            if st['s'] == 'groupby':
+                s += 'print(x.d)\n' if st.get('via') == 'd' else 'print(x.groupby(%s))\n' % pk(st['keys'], st['K'] == 'ml')
+            elif st['s'] == 'sort':
+                k = pk(st['keys'], False)
+                s += 'print(x.sort(%s%sreverse=%r))\n' % (k, ', ' if k else '', st['reverse'])
+            else:
+                s += 'print(x.filter(**%r))\n' % ({k: _val(v) for k, v in st['conds']},)
+    return s
+
+
 def python_snippet(case):
+    if case.get('_op') == 'xhist':
+        return _xsnippet(case)
     def pe(e):
         if e['f']:
             return 'Feature(locs=[%s], meta=%r)' % (', '.join('Location(%d, %d%s)' % (s, t, ", '-'" if e.get('minus') else '')
@@ -1730,5 +2201,9 @@ LEVEL_NOTE = ('Trusted: Coq kernel/vm_compute, the correspondence harness, CPyth
               'residues of the feature get() returns - all via the history / transport streams. Domain: values None/int/str, key values '
               'orderable, one kind of element per collection, metadata keys not shadowing mapping methods (F20, list regenerated from '
               'dir(Meta)); filter operators outside the 12 documented ones are outside. '
+              'Round 7: the place a str key is looked up per collection kind (attr=\'meta\' for FeatureList / BioBasket, plain attributes - '
+              'instance, then wrapped re.Match, then None - for BioMatchList; callables get the object) is in the model (place_of_key, '
+              'place_of_cond, xview, x_groupby / x_sort / x_filter, run_C16_xhist) and tied by the cross-kind histories; the results of '
+              'find_orfs / matchall inside those histories are checked by a Python oracle only (their operands are not known to the model). '
               'All theorems closed under the global context (no axioms).')
 TECHNIQUE = 'Coq proof over an executable Gallina model + differential correspondence with /repo'
